@@ -34,7 +34,11 @@ RULE = ("sequences: Hypothesis draws a type (aa/dna/rna), up to 4 blocks (motif 
         "with trailing/internal blanks, blank lines, junk before the first header, LF/CRLF, with/without final newline) "
         "written under a mkdtemp directory with each extension of {.fna .ffn .faa .frn .fasta .txt none .fna.txt .faa.gz} and "
         "an optional explicit type; read_fasta (file, StringIO), Sequence.loadall and Sequence.load must give the "
-        "generator's records, typed by the extension. Non-trivial: a sequence of >= 2 kept codes containing an ambiguity "
+        "generator's records, typed by the extension. Histories (each task is one process): a guard snapshots every fasta "
+        "table molecule (object identities, formula structures, densities, cell_volume, charge, mass, Dmass, sld, Dsld, "
+        "D2Omatch) and compares after every generated case; the code sweep runs at the start and at the end of every "
+        "sequences task; every Sequence is built twice in a row and must report identical values, every third one is built "
+        "again 7 cases later; a Sequence and formula('<type>:...') never hand out a formula object of a table entry. Non-trivial: a sequence of >= 2 kept codes containing an ambiguity "
         "code; a FASTA text with >= 2 records one of which is wrapped over >= 2 lines. Distinct by (type, raw string) / "
         "(file name, text).")
 ASSUMPTIONS = [
@@ -45,6 +49,8 @@ ASSUMPTIONS = [
     "record names are accepted with or without the leading '>'; sequences of records are compared with blanks removed "
     "(blanks are not significant in a sequence)",
     "sequence lines never start with '>' or with white space; the characters after '*' are codes, blanks and stars",
+    "after a modification of a table entry is reported the guard puts the snapshot back, so the following cases of the task "
+    "are judged on intact tables; at most 2 modified entries are reported per task (bucket per table and key)",
 ]
 EXHAUSTIVE = True
 EXHAUSTIVE_NOTE = "task 'codes': all 25 amino-acid codes and all 18 DNA and 18 RNA codes against the mean of their bases"
